@@ -401,6 +401,49 @@ fn run_client(case: &Case) -> Result<Outcome, V> {
                 out.cells.push("trade_query_with_non_monotone_request_times".into());
             }
         }
+        // parting order: the caller places one more order, stops waiting for its response and DISCONNECTS (drops its
+        // request handle) while the exchange's latency is still running; whoever still listens to the account
+        // stream must see the accepted order announced all the same
+        if case.impatient && case.latency_ms >= 2 && !case.reqs.is_empty() {
+            let n = case.reqs.len();
+            let r = &case.reqs[n / 2];
+            let req = request(r, n + 1000);
+            let req_ref = OrderRequestOpen {
+                key: OrderKey { exchange: req.key.exchange, instrument: &req.key.instrument, strategy: req.key.strategy.clone(), cid: req.key.cid.clone() },
+                state: req.state.clone(),
+            };
+            let gave_up = tokio::time::timeout(Duration::from_millis(case.latency_ms / 2), client.open_order(req_ref)).await.is_err();
+            let decision = led.decide(r);
+            drop(client);
+            out.steps += 1;
+            if gave_up {
+                let mut want: Vec<String> = vec![];
+                if let Decision::Accept { asset, amount, fee_quote } = decision {
+                    *led.bal.get_mut(&asset).unwrap() -= amount;
+                    want.push(format!("balance:{asset}={}", led.bal[&asset]));
+                    want.push(format!("trade:{}", fee_quote.normalize()));
+                    out.cells.push("caller_disconnected_before_the_latency_of_its_last_accepted_order_elapsed".into());
+                }
+                let mut got: Vec<String> = vec![];
+                loop {
+                    match tokio::time::timeout(wait, stream.next()).await {
+                        Ok(Some(ev)) => match ev.kind {
+                            AccountEventKind::BalanceSnapshot(b) => got.push(format!("balance:{}={}", b.0.asset.name(), b.0.balance.total)),
+                            AccountEventKind::Trade(t) => got.push(format!("trade:{}", t.fees.fees.normalize())),
+                            other => got.push(format!("other:{other:?}")),
+                        },
+                        Ok(None) | Err(_) => break,
+                    }
+                }
+                out.checks += 1;
+                if got != want {
+                    return Err(("account_stream_notifications_differ_from_accepted_orders", format!("parting order {r:?} placed right before the caller disconnected: expected {want:?} observed {got:?}")));
+                }
+            }
+            drop(stream);
+            let _ = tokio::time::timeout(Duration::from_secs(60), handle).await;
+            return Ok(out);
+        }
         drop(client);
         drop(stream);
         handle.abort();
@@ -549,6 +592,7 @@ fn main() {
             "driver:direct",
             "trade_query_with_non_monotone_request_times",
             "accepted_order_whose_response_nobody_awaited",
+            "caller_disconnected_before_the_latency_of_its_last_accepted_order_elapsed",
         ] {
             report.require(c);
         }
